@@ -266,7 +266,7 @@ def gen_case(rng, adapter):
 
 
 def ser_expected(exp):
-    return [[list(m[:4]) + [[m[4][0]] + [str(x) if isinstance(x, Fraction) else x for x in m[4][1:]]] for m in dp]
+    return [[list(m[:4]) + [[m[4][0]] + [da.frac_str(x) if isinstance(x, Fraction) else x for x in m[4][1:]]] for m in dp]
             for dp in exp]
 
 
